@@ -23,6 +23,19 @@ chk.extra['rule'] = (
     'and, over all node pairs, each of the criteria selection, domain, residue separation and distance has >= 1 '
     'passing and >= 1 failing pair (in the decay stream also the force criterion); distinct = distinct protocol line')
 chk.lean(['VermouthProps.C15'], 'driver_c15')
+chk.trusted += [
+    'harness/c15.py: molecule builder, canonicaliser, independent oracle (five criteria by the property text, residue '
+    'distances by networkx single_source_shortest_path_length on its own residue graph), numeric oracle for the decay '
+    '(math.exp / math.sqrt, relative tolerance 1e-9)',
+    'IEEE-754 double arithmetic on the 1/256 nm lattice: coordinate differences, squares and sums are exact, sqrt is '
+    'correctly rounded, so `distance > upper_bound` equals the integer comparison d2 > U^2 for integer U',
+]
+chk.assumptions += [
+    'emit_iff / emit_once / order_invariant are stated for minimum_force >= 0 (F-C15-1 otherwise) and distinct node keys',
+    'the decayed constant base*exp(-a (d-lo)^p) enters the model as an input table squared distance -> rational; its '
+    'value is checked against the documented formula by the numeric oracle only',
+    'cases with a decayed constant within 1e-9 (relative) of minimum_force, or NaN, are excluded and counted',
+]
 
 import numpy as np
 import networkx as nx
@@ -127,8 +140,17 @@ def run_real(spec):
 
 
 def frac(x):
+    if x != x or x in (float('inf'), float('-inf')):
+        return [0, 0]          # not a finite number: never equal to a model value
     f = Fraction(x)
     return [f.numerator, f.denominator]
+
+
+def n5_of(length):
+    x = float(length) * 1e5
+    if x != x or abs(x) > 1e15:
+        return -1
+    return int(round(x))
 
 
 def near_thr(k, thr):
@@ -303,8 +325,8 @@ def oracle(spec, exc, rubber, warns, intact, table, ktab_fn):
         bt, length, fc = inter.parameters
         if bt != expected_bond_type(spec):
             errs.append('bond type %r instead of %r' % (bt, expected_bond_type(spec)))
-        n5 = int(round(float(length) * 1e5))
-        if abs(float(length) * 1e5 - n5) > 1e-6 or n5 != len5_expected(d2):
+        n5 = n5_of(length)
+        if not (abs(float(length) * 1e5 - n5) <= 1e-6) or n5 != len5_expected(d2):
             errs.append('bond %r has length %r, distance is sqrt(%d)/256 = %.7f' % (tuple(atoms), length, d2,
                                                                                    math.sqrt(d2) / UNIT))
         if not close(float(fc), k):
@@ -510,7 +532,7 @@ def evaluate(cid, spec, stream):
         for inter in rubber:
             a, b = inter.atoms
             bt, length, fc = inter.parameters
-            n5 = int(round(float(length) * 1e5))
+            n5 = n5_of(length)
             pa = next((pos_of(x) for x in spec['atoms'] if x['key'] == a), None)
             pb = next((pos_of(x) for x in spec['atoms'] if x['key'] == b), None)
             kexp = ktab_fn(d2_of(pa, pb)) if pa is not None and pb is not None else None
@@ -557,11 +579,11 @@ for path in sorted(glob.glob(os.path.join(VERIF, 'corpus', 'c15_*.json'))):
     for j, spec in enumerate(json.load(open(path))['cases']):
         cases.append(('corpus-%s-%d' % (os.path.basename(path)[4:-5], j), spec, 'corpus'))
 rng = chk.rng('exact')
-N1 = 12000 if chk.thorough else 1100
+N1 = 30000 if chk.thorough else 3000
 for i in range(N1):
     cases.append(('exact-%d' % i, gen_spec(rng, False, big=chk.thorough and i % 10 == 0), 'exact'))
 rng = chk.rng('decay')
-N2 = 6000 if chk.thorough else 500
+N2 = 14000 if chk.thorough else 1400
 for i in range(N2):
     cases.append(('decay-%d' % i, gen_spec(rng, True, big=chk.thorough and i % 10 == 0), 'decay'))
 
